@@ -24,7 +24,8 @@ fn layer_decode(ty: u16) {
     let n = if ty == 2 { 24 } else { 20 };
     let l = match crate::layer::parse_chunk(&buf[..n]) {
         Ok(l) => l,
-        Err(_) => {
+        Err(e) => {
+            core::mem::forget(e);
             assert!(false, "well-formed layer chunk decodes");
             return;
         }
@@ -79,7 +80,8 @@ fn c01_q_tags_two() {
     kani::assume(buf[14] < 3 && buf[34] < 3);
     let t = match crate::tags::parse_chunk(&buf) {
         Ok(t) => t,
-        Err(_) => {
+        Err(e) => {
+            core::mem::forget(e);
             assert!(false, "well-formed tags chunk decodes");
             return;
         }
@@ -123,7 +125,8 @@ fn slice_decode(flags: u8) {
     let n = 15 + 2 * ksz;
     let s = match crate::slice::parse_chunk(&buf[..n]) {
         Ok(s) => s,
-        Err(_) => {
+        Err(e) => {
+            core::mem::forget(e);
             assert!(false, "well-formed slice chunk decodes");
             return;
         }
@@ -201,7 +204,8 @@ fn c01_q_external_files_two() {
     buf[40] = 0;
     let v = match ExternalFile::parse_chunk(&buf) {
         Ok(v) => v,
-        Err(_) => {
+        Err(e) => {
+            core::mem::forget(e);
             assert!(false, "well-formed external files chunk decodes");
             return;
         }
@@ -234,7 +238,8 @@ fn tileset_decode(flags: u8) {
     }
     let t = match crate::tileset::Tileset::<RawPixels>::parse_chunk(&buf[..n], PixelFormat::Rgba) {
         Ok(t) => t,
-        Err(_) => {
+        Err(e) => {
+            core::mem::forget(e);
             assert!(false, "well-formed tileset chunk decodes");
             return;
         }
